@@ -1154,7 +1154,22 @@ func (w *worker) runCombine(ctx context.Context, task *Task, taskStats *stats.Ma
 	defer func() {
 		w.mu.Lock()
 		w.combinerStates[combineKey]--
+		var stale []chan *combiner
+		if err != nil && task.CombineKey == "" && w.combinerStates[combineKey] == combinerIdle {
+			// Without a machine combine key, the combine buffers are private
+			// to this task. They now hold whatever this failed attempt has
+			// combined so far; a later attempt of the task on this worker
+			// must start from empty buffers, or those rows are combined twice.
+			stale = w.combiners[combineKey]
+			delete(w.combiners, combineKey)
+			delete(w.combinerStates, combineKey)
+		}
 		w.mu.Unlock()
+		for _, ch := range stale {
+			if discardErr := (<-ch).Discard(); discardErr != nil {
+				log.Error.Printf("error discarding combiner: %v", discardErr)
+			}
+		}
 		if err == nil && task.CombineKey == "" {
 			taskWriteDuration := taskStats.Int("writeDuration")
 			start := time.Now()
